@@ -91,6 +91,27 @@ type vSchedule struct {
 	// (the stores were written by a process with the other encoding): the raw content of
 	// both stores is recorded before they are opened (= converted) and after
 	ConvDump bool `json:"convdump"`
+	// Offset: robust.MessageOffset of the node's processes (-robustirc_message_offset; the
+	// production default is 4648398125000000000).  Message and session ids are offset +
+	// raft index; the schedule (sess of an entry), the reference's bookkeeping and every
+	// projection use raft indices, the harness converts.
+	Offset uint64 `json:"offset"`
+}
+
+// vId: the id the node gives the entry stored at a raft index (a session's id is the id of
+// its CreateSession entry).
+func vId(idx uint64) uint64 { return robust.IdFromRaftIndex(idx) }
+
+// vIdx: id -> raft index for the projections.  An id below a non-zero offset cannot be any
+// entry's id; it is mapped out of the index range so that it shows in the projection.
+func vIdx(id uint64) uint64 {
+	if robust.MessageOffset == 0 {
+		return id
+	}
+	if id >= robust.MessageOffset {
+		return id - robust.MessageOffset
+	}
+	return 1000000 + id%1000000
 }
 
 // vConv: raw content of the raft log store and of the irclog before and after the
@@ -201,8 +222,13 @@ func vMsg(e vEntry, asMod bool) *robust.Message {
 	if asMod {
 		t = robust.MessageOfDeath
 	}
+	sess := uint64(0)
+	if e.Sess != 0 {
+		sess = vId(e.Sess)
+	}
+	// no embedded id: what api.applyMessageWait writes (the id is derived from the raft index)
 	return &robust.Message{
-		Session:         robust.Id{Id: e.Sess},
+		Session:         robust.Id{Id: sess},
 		Type:            t,
 		Data:            e.Data,
 		UnixNano:        e.TS,
@@ -349,8 +375,8 @@ func vAbsOf(s *pb.Snapshot) *vAbs {
 		}
 	}
 	for _, x := range s.Sessions {
-		a.Sess = append(a.Sess, x.Id.Id)
-		a.Marker[strconv.FormatUint(x.Id.Id, 10)] = x.LastClientMessageId
+		a.Sess = append(a.Sess, vIdx(x.Id.Id))
+		a.Marker[strconv.FormatUint(vIdx(x.Id.Id), 10)] = x.LastClientMessageId
 		add(vReNick, x.Nick)
 		add(vReUser, x.Username)
 		for _, c := range x.Channels {
@@ -478,7 +504,7 @@ func vNewRef(s *vSchedule, scratch string) *vRef {
 		r.limit = int(reached)
 	}
 	for _, e := range s.Log {
-		if msgs, ok := stream.Get(robust.Id{Id: e.Idx}); ok {
+		if msgs, ok := stream.Get(robust.Id{Id: vId(e.Idx)}); ok {
 			r.outs[e.Idx] = msgs
 		}
 	}
@@ -1010,7 +1036,7 @@ func (n *vNode) observe() (*vPost, *vChk) {
 
 	// output store
 	for id := uint64(1); id <= n.stored; id++ {
-		msgs, ok := outputStream.Get(robust.Id{Id: id})
+		msgs, ok := outputStream.Get(robust.Id{Id: vId(id)})
 		if !ok {
 			continue
 		}
@@ -1244,6 +1270,7 @@ func vDiff(a, b string) string {
 // ---------------------------------------------------------------- driver
 
 func vRunSchedule(s *vSchedule, base string, seq int, emit func(vEvent)) {
+	robust.MessageOffset = s.Offset
 	dir := s.Dir
 	if dir == "" {
 		dir = filepath.Join(base, fmt.Sprintf("rd-%d", seq))
@@ -1516,6 +1543,9 @@ func TestVerifFSMDumpLog(t *testing.T) {
 	outp := os.Getenv("VERIF_FSM_OUT")
 	if dir == "" || outp == "" {
 		t.Skip("VERIF_FSM_DUMPDIR / VERIF_FSM_OUT not set")
+	}
+	if v := os.Getenv("VERIF_FSM_OFFSET"); v != "" {
+		robust.MessageOffset, _ = strconv.ParseUint(v, 10, 64)
 	}
 	st, err := raftstore.NewLevelDBStore(filepath.Join(dir, "raftlog"), false, false)
 	if err != nil {
